@@ -433,6 +433,35 @@ def _wait_file(path, timeout):
     return False
 
 
+def _in_flock(pid):
+    """Is the process sleeping inside the flock(2) system call (x86-64: 73)?  Read from /proc, so that
+    "blocked behind the holder" is observed, not guessed from elapsed wall-clock time."""
+    try:
+        return open(f'/proc/{pid}/syscall').read().split()[0] == '73'
+    except (OSError, IndexError):
+        return False
+
+
+def _wait_blocked(proc, timeout):
+    """Wait until the process sits in flock() on two consecutive looks (or has exited / timeout)."""
+    t0 = _time.time()
+    seen = 0
+    while _time.time() - t0 < timeout and proc.poll() is None:
+        seen = seen + 1 if _in_flock(proc.pid) else 0
+        if seen >= 2:
+            return True
+        _time.sleep(0.003)
+    return False
+
+
+def _exited(proc):
+    """Has the child terminated?  Looks WITHOUT reaping it (it stays a zombie until proc.wait())."""
+    try:
+        return _os.waitid(_os.P_PID, proc.pid, _os.WEXITED | _os.WNOHANG | _os.WNOWAIT) is not None
+    except ChildProcessError:
+        return True
+
+
 def _probe(lock):
     """A fresh FileLock object in THIS process: can it take the lock without waiting?"""
     import aiuti.filelock as F
@@ -476,20 +505,29 @@ def run_crash(case):
                 return ''
         t0 = _time.time()
         ext_kill = False
-        while v.poll() is None:
+        while not _exited(v):
             txt = logtxt()
             if scen == 'waiter' and surv is None and 'ret T' in txt:
                 surv = _spawn(['hold', lock, _os.path.join(d, 's_ready'), _os.path.join(d, 's_go')])
                 procs.append(surv)
                 w_started_before = True
-                _time.sleep(0.12)                    # let the waiter reach its blocking flock
+                _wait_blocked(surv, 5)               # the waiter has reached its blocking flock
                 open(resume, 'w').close()
-            if _time.time() - t0 > (0.4 if scen == 'holder' else 8):
+            if (scen == 'holder' and _in_flock(v.pid) and _wait_blocked(v, 1)) or _time.time() - t0 > 8:
                 # blocked for good behind the survivor (or runaway): the crash is an external SIGKILL
                 ext_kill = True
                 v.send_signal(_signal.SIGKILL)
                 break
             _time.sleep(0.002)
+        # the victim is dead but NOT yet reaped (a zombie, the usual state right after a kill): the kernel has
+        # already closed its descriptors, so a fresh non-blocking acquire must already see the truth
+        probe0 = None
+        if scen in ('alone', 'holder'):
+            try:
+                _os.waitid(_os.P_PID, v.pid, _os.WEXITED | _os.WNOWAIT)
+                probe0 = _probe(lock)
+            except (ChildProcessError, OSError):
+                probe0 = None
         v.wait()
         died = v.returncode == -_signal.SIGKILL
         if scen == 'waiter' and surv is None:
@@ -500,6 +538,8 @@ def run_crash(case):
             if _wait_file(_os.path.join(d, 's_ready'), 5):
                 w_held = open(_os.path.join(d, 's_ready')).read() == 'HELD'
         probe1 = _probe(lock)
+        if probe0 is not None:
+            probe1 = probe1 and probe0           # both attempts (before and after reaping) must succeed
         if surv is not None:
             open(_os.path.join(d, 's_go'), 'w').close()
             try:
@@ -525,6 +565,10 @@ def run_crash(case):
             if p.poll() is None:
                 p.kill()
                 p.wait()
+        try:
+            _os.kill(int(open(log + '.helper').read()), _signal.SIGKILL)
+        except (OSError, ValueError):
+            pass
         _shutil.rmtree(d, ignore_errors=True)
 
 
@@ -539,9 +583,12 @@ def crash_dry_run(program, scen):
             _wait_file(_os.path.join(d, 's_ready'), 10)
         v = _spawn(['crash', lock, program, -1, log])
         procs.append(v)
-        try:
-            v.wait(0.6 if scen == 'holder' else 10)
-        except _subprocess.TimeoutExpired:
+        t0 = _time.time()
+        while v.poll() is None and _time.time() - t0 < 10:
+            if scen == 'holder' and _in_flock(v.pid) and _wait_blocked(v, 1):
+                break
+            _time.sleep(0.002)
+        if v.poll() is None:
             v.kill()
             v.wait()
         last = 0
@@ -555,4 +602,8 @@ def crash_dry_run(program, scen):
             if p.poll() is None:
                 p.kill()
                 p.wait()
+        try:
+            _os.kill(int(open(log + '.helper').read()), _signal.SIGKILL)
+        except (OSError, ValueError):
+            pass
         _shutil.rmtree(d, ignore_errors=True)
